@@ -353,6 +353,6 @@ func main() {
 			"purge (getLiveSnapshots + removeOldBoltSnapshots on a real root.bolt with existing checkpoints and an eligibleForRemoval list that also names never-persisted epochs; " +
 			"stamps kept >= 5 s away from the clock-dependent cutoff); " +
 			"non-trivial: ts with >= 2 sampled points, prot with sampling on that keeps >= 2 but not all, bound that moves the cutoff, purge that removes some and keeps some eligible epochs",
-		ShardSize: 500,
+		ShardSize: 250,
 	}, gen, exec)
 }
